@@ -21,7 +21,7 @@ C02Cat(e) == /\ e.thrown = ""                                  \* "serialize() s
              /\ e.size = SumSizes(e.hs)                         \*  size() being the sum of all layers' header and trailer sizes"
              /\ e.overwrite = << >>                             \* "each layer writes only inside its own header and trailer regions"
              /\ e.again_same                                    \* (and doing it again gives the same bytes)
-C12Cat(e) == e.thrown = "" /\ e.clone_same                    \* "A copy or clone is ... equal to its source ... same ... serialization"
+C12Cat(e) == e.thrown = "" /\ e.clone_same /\ e.rebuild_same                    \* "A copy or clone is ... equal to its source ... same ... serialization"
 Cat == /\ IsEvent("cat")
        /\ (IF Prop = "C02" THEN C02Cat(Ev) ELSE IF Prop = "C12" THEN C12Cat(Ev) ELSE C05Cat(Ev))
        /\ UNCHANGED dummy
